@@ -34,6 +34,7 @@ func init() {
 		register(&Workload{Prop: prop, Variant: "failure-while-stopping", Horizon: 20 * time.Minute, MaxSteps: 200000, MaxG: 4096, Spin: 8000, PCTLen: 2000, Weight: 1, Body: func(r *R) { c08WhileStopping(r, prop) }})
 	}
 	register(&Workload{Prop: "C09", Variant: "zombie", Horizon: 20 * time.Minute, MaxSteps: 200000, MaxG: 4096, Spin: 8000, PCTLen: 2000, Weight: 2, Body: c09Zombie})
+	register(&Workload{Prop: "C09", Variant: "double-failure", Horizon: 20 * time.Minute, MaxSteps: 200000, MaxG: 4096, Spin: 8000, PCTLen: 1500, Weight: 2, Body: c09DoubleFailure})
 	register(&Workload{Prop: "C09", Variant: "concurrent-failures", Horizon: 20 * time.Minute, MaxSteps: 300000, MaxG: 4096, Spin: 8000, PCTLen: 3000, Weight: 2, Body: c09Concurrent})
 }
 
@@ -1004,4 +1005,177 @@ func c09Concurrent(r *R) {
 		}
 	}
 	r.Count("concurrent-failures-checked")
+}
+
+// c09DoubleFailure: two failures in quick succession. A message in the middle of a queued burst fails, the supervisor
+// restarts the actor, and the new incarnation fails again in its OnLaunch while the rest of the burst is still queued.
+// Until the supervisor has answered the second failure the actor is suspended: the queued messages wait. They then go, in
+// order, to the incarnation the second decision leaves alive (Restart: the third one; Resume: the second one) or to the
+// dead letters (Stop) - each exactly once.
+func c09DoubleFailure(r *R) {
+	w := newWorld(r, WorldOpt{})
+	if r.Failed() {
+		return
+	}
+	first := []vivid.SupervisionDecision{vivid.SupervisionDecisionRestart, vivid.SupervisionDecisionGracefulRestart}[r.Choose(2)]
+	second := []vivid.SupervisionDecision{vivid.SupervisionDecisionRestart, vivid.SupervisionDecisionStop, vivid.SupervisionDecisionResume}[r.Choose(3)]
+	m := w.NewMaker("sup", func(n int, ctx vivid.SupervisionContext) vivid.SupervisionDecision {
+		if n == 0 {
+			return first
+		}
+		return second
+	})
+	v := &Spec{Name: "v", Provider: r.Chance(50)}
+	v.OnLaunch = func(ctx vivid.ActorContext, p *Probe) {
+		w.mu.Lock()
+		inc := w.inc[p.Path]
+		w.mu.Unlock()
+		if inc == 1 {
+			r.Count("second-failure-in-OnLaunch-of-the-restarted-actor")
+			panic("the restarted actor fails again in OnLaunch")
+		}
+	}
+	if _, err := w.Spawn(&Spec{Name: "sup", Strategy: vivid.OneForOneStrategy(m), Children: []*Spec{v}}); err != nil {
+		r.Fail("C09/harness", "spawn: %v", err)
+		return
+	}
+	vsimrt.Settle()
+	n := 3 + r.Choose(6)
+	f := r.Choose(n - 1) // at least one message is queued behind the failing one
+	held := r.Chance(70)
+	gate := NewGate()
+	vref := w.RefBy("create", nil, "/sup/v")
+	if held {
+		// the whole burst queues up behind a held message, so that everything behind the failing message is in the mailbox
+		w.Tell(vref, w.NewCmd("gate", 0, func(ctx vivid.ActorContext, p *Probe) { gate.Wait() }))
+		vsimrt.Settle()
+	}
+	ids := make([]int, n)
+	for i := 0; i < n; i++ {
+		var do func(ctx vivid.ActorContext, p *Probe)
+		if i == f {
+			do = func(ctx vivid.ActorContext, p *Probe) { panic("first failure") }
+		}
+		c := w.NewCmd("burst", i, do)
+		ids[i] = c.ID
+		w.Tell(vref, c)
+	}
+	r.Sample(map[string]any{"first_decision": fmt.Sprint(first), "second_decision": fmt.Sprint(second), "burst": n, "failing_position": f, "held": held, "provider": v.Provider})
+	if held {
+		gate.Open()
+	}
+	vsimrt.SettleFor(500 * time.Millisecond)
+	if r.Failed() {
+		return
+	}
+	if len(m.CallList()) != 2 {
+		r.Fail(fmt.Sprintf("C09/double-failure supervisor-consulted=%d", len(m.CallList())), "the supervisor was consulted %d times for two failures (first decision %v, second %v)", len(m.CallList()), first, second)
+		w.DumpNotes(200)
+		return
+	}
+	evs := w.Events()
+	lives := Lives(evs)["/sup/v"]
+	desc := fmt.Sprintf("burst of %d, #%d fails -> %v; the restarted actor fails in OnLaunch -> %v; lives: %s", n, f, first, second, c08LivesDesc(lives))
+	// which incarnation handled which burst message
+	where := map[int][]int{}
+	for k, life := range lives {
+		for _, e := range life.Events {
+			if e.Kind == "Cmd" {
+				where[e.ID] = append(where[e.ID], k)
+			}
+		}
+	}
+	dl := map[int]int{}
+	for _, e := range evs {
+		if e.Path == "@obs" && e.Kind == "Evt:DeathLetter" && e.ID != 0 {
+			dl[e.ID]++
+		}
+	}
+	// the suspended second incarnation handles nothing unless it was resumed
+	if second != vivid.SupervisionDecisionResume && len(lives) > 1 {
+		for _, e := range lives[1].Events {
+			if e.Kind == "Cmd" {
+				r.Fail("C09/suspended-actor-handled-queued-mail second-decision="+fmt.Sprint(second), "%s: incarnation 1 failed in OnLaunch and was waiting for its supervisor, yet it handled %s", desc, e.String())
+				w.DumpNotes(200)
+				return
+			}
+		}
+	}
+	wantLife := map[vivid.SupervisionDecision]int{vivid.SupervisionDecisionRestart: 2, vivid.SupervisionDecisionResume: 1}
+	last := -1
+	// a graceful restart lets the old incarnation work off what was queued at the time of the failure; only with the
+	// handler held is the whole burst provably queued by then - otherwise a message may arrive later and is treated like
+	// the mail of an immediate restart
+	graceful := first == vivid.SupervisionDecisionGracefulRestart && held
+	if graceful {
+		wantLife[vivid.SupervisionDecisionRestart], wantLife[vivid.SupervisionDecisionResume] = 0, 0
+	}
+	for i := f + 1; i < n; i++ {
+		id := ids[i]
+		if first == vivid.SupervisionDecisionGracefulRestart && !held && len(where[id]) == 1 && where[id][0] == 0 && dl[id] == 0 {
+			continue
+		}
+		switch {
+		case graceful:
+			if len(where[id]) != 1 || where[id][0] != 0 || dl[id] != 0 {
+				r.Fail("C09/double-failure queued-mail-misdelivered first-decision=graceful-restart", "%s: queued message #%d was handled by incarnation(s) %v (dead letters %d); a graceful restart processes the queued mail before restarting: expected exactly once by incarnation 0", desc, i, where[id], dl[id])
+				w.DumpNotes(200)
+				return
+			}
+		case second == vivid.SupervisionDecisionStop:
+			if len(where[id]) != 0 || dl[id] != 1 {
+				r.Fail("C09/double-failure queued-mail-after-stop", "%s: queued message #%d was handled by incarnation(s) %v and published %d time(s) as a dead letter (expected: not handled, one dead letter)", desc, i, where[id], dl[id])
+				w.DumpNotes(200)
+				return
+			}
+		default:
+			if len(where[id]) != 1 || where[id][0] != wantLife[second] || dl[id] != 0 {
+				r.Fail("C09/double-failure queued-mail-misdelivered second-decision="+fmt.Sprint(second), "%s: queued message #%d was handled by incarnation(s) %v (dead letters %d); expected exactly once by incarnation %d", desc, i, where[id], dl[id], wantLife[second])
+				w.DumpNotes(200)
+				return
+			}
+		}
+	}
+	// order among the redelivered messages
+	if (graceful || second != vivid.SupervisionDecisionStop) && (held || first != vivid.SupervisionDecisionGracefulRestart) && len(lives) > wantLife[second] {
+		pos := map[int]int{}
+		for i, id := range ids {
+			pos[id] = i
+		}
+		for _, e := range lives[wantLife[second]].Events {
+			if i, ok := pos[e.ID]; ok && e.Kind == "Cmd" && i > f {
+				if i < last {
+					r.Fail("C09/double-failure queued-mail-reordered", "%s: message #%d was handled after #%d", desc, i, last)
+					return
+				}
+				last = i
+			}
+		}
+	}
+	r.Count("double-failure-checked")
+	// nobody stays paused; the survivor processes later mail
+	vsimrt.Fence()
+	for _, ci := range actor.VsimContexts(actor.VsimSystem(w.Sys)) {
+		if ci.Path == "/sup/v" && ci.Paused && ci.State == 0 {
+			r.Fail("C09/left-paused after-double-failure second-decision="+fmt.Sprint(second), "%s: /sup/v is alive but its mailbox is still paused", desc)
+			return
+		}
+	}
+	if second != vivid.SupervisionDecisionStop {
+		pc := w.NewCmd("probe", 0, nil)
+		w.Tell(vref, pc)
+		vsimrt.SettleFor(100 * time.Millisecond)
+		ok := false
+		for _, e := range w.Events() {
+			if e.Kind == "Cmd" && e.ID == pc.ID {
+				ok = true
+			}
+		}
+		if !ok {
+			r.Fail("C09/probe-not-processed after-double-failure second-decision="+fmt.Sprint(second), "%s: a message sent afterwards was not processed", desc)
+			w.DumpNotes(200)
+			return
+		}
+	}
+	_ = w.Stop(30 * time.Second)
 }
